@@ -521,6 +521,9 @@ func c14PatchCase(c *mon.Ctx, s cliShape, bin Binary, a, b any) {
 	}
 }
 
+// documents that are empty in one way or another (ref.Void is the empty file)
+var emptyish = []any{ref.Void{}, map[string]any{}, []any{}, "", nil, 0.0, []any{[]any{}}, map[string]any{"a": map[string]any{}}}
+
 // legal JSON texts in unusual spellings
 var jsonSpellings = []string{
 	`{"k":"\ud83d\ude00"}`, `{"k":"a\/b"}`, `["\u0041\u00e9\u2028"]`, "\"a\x7fb\"", "{\"k\":\"a\u0085b\"}", "{\"a\u0085\":1}", `{"a":-0}`, `[-0.0,0]`, `[1E3,1.0,1e-7,100000000000000000000,1.5e300]`,
@@ -544,7 +547,7 @@ func init() {
 			"each run is compared with a CLI model that maps the flags to the documented library calls: exit status, stdout bytes, -o file bytes (stdout empty), stdin vs file; the patch-mode leg feeds the library's diff to `jd -p` and requires the output to equal the library rendering and to reproduce b; " +
 			"non-trivial = every run; distinct = distinct (shape, binary, inputs)",
 		Floors: map[string]int{"cli_runs": 5000, "status_0": 500, "status_1": 500, "status_2": 200, "with_-o": 1000, "-o_onto_existing_longer_file": 500, "stdin_vs_file_pairs": 100, "setkeys_spellings": 100, "in_place_-o": 10, "second_input_from_stdin": 1000, "colour_output": 300, "patch_mode_runs": 1000,
-			"pipeline_reproduces_b:jd": 300, "pipeline_reproduces_b:patch": 50, "pipeline_reproduces_b:merge": 50, "pipeline_yaml": 200, "translate_runs": 120, "translate_spelling_runs": 150, "git_diff_driver_runs": 15, "error_cases": 200},
+			"pipeline_reproduces_b:jd": 300, "pipeline_reproduces_b:patch": 50, "pipeline_reproduces_b:merge": 50, "pipeline_yaml": 200, "translate_runs": 120, "translate_spelling_runs": 150, "void_and_empty_pairs": 300, "git_diff_driver_runs": 15, "error_cases": 200},
 		Assumptions: []string{
 			"the CLI model (props/c14.go modelDiff / modelPatch) encodes the documented mapping: flags -> options, -f -> renderer / reader, status 0 no difference / 1 difference / 2 error",
 			"-precision together with -set / -mset is a documented refusal (status 2)",
@@ -745,6 +748,28 @@ func init() {
 			if err != nil || !ref.Eq(back, bv, ref.List) {
 				c.Violation("print-then-patch does not reproduce b (content with significant trailing white space)", map[string]any{"patched": p1.Stdout, "b": ref.ToJSON(bv)})
 			}
+		},
+	})
+	p.Strata = append(p.Strata, mon.Stratum{
+		Name:       "void-and-empty-sides",
+		CLI:        true,
+		N:          n(len(emptyish) * len(emptyish) * 3 * 3),
+		Exhaustive: always,
+		Run: func(c *mon.Ctx, i int) {
+			// every ordered pair of empty-ish documents (the empty file, {}, [], "", null, 0, [[]], {"a":{}})
+			// x formats jd / patch / merge x the three binaries, diff mode and the -p pipeline, file and stdin
+			ne := len(emptyish)
+			x, y := emptyish[i%ne], emptyish[(i/ne)%ne]
+			f := []string{"", "patch", "merge"}[(i/(ne*ne))%3]
+			bin := Binaries[(i/(ne*ne*3))%3]
+			if f == "merge" && (ref.HasNull(x) || ref.HasNull(y)) {
+				c.Skip("merge mode is for null-free documents")
+				return
+			}
+			c.Feature("void_and_empty_pairs")
+			s := cliShape{format: f, stdin: i%2 == 1}
+			c14DiffCase(c, s, bin, x, y)
+			c14PatchCase(c, s, bin, x, y)
 		},
 	})
 	p.Strata = append(p.Strata, mon.Stratum{
